@@ -35,7 +35,11 @@ RULE = (
     'to `Bdata/f.txt`; [special-value] an :output reference (file, or the stdout of a dedicated producer) whose value '
     'is one of 18 texts special to replacement machinery (backslash escapes and group references, $1/&, {0}, regex and '
     'shell metacharacters, TAB, double space) alone, as key=<ref>, between literals and next to a second reference in '
-    'both declaration orders. The thorough extension adds: the same families over all 8 names (*-ext), pairs with '
+    'both declaration orders; [repeating-stdout] a file-less :output reference to a REPEATING producer for every set '
+    'of archived streams streams/<n>.stdout from {every window of 1-4 consecutive repetitions over 0..13, windows '
+    'straddling 99/100 and 999/1000, 8 non-contiguous sets} (plus a newer .stderr stream and a plain out.stdout as '
+    'decoys): cross-stage consumer (key=<ref>; next to <producer>:ref in both declaration orders) and same-stage '
+    'repeating consumer in both spellings. The thorough extension adds: the same families over all 8 names (*-ext), pairs with '
     'independent wrappers (3x3) x both token orders (declared spelling as used; and always-absolute declarations with '
     'bare tokens), triples with every legal spelling combination (all :ref) or with the first/last member an :output '
     '(all absolute / relative where legal), 4-token templates (p, key=q, --opt=p, literal), look-alike '
@@ -56,6 +60,9 @@ ASSUMPTIONS = [
     'of scope; :output files are written without trailing newline so that newline stripping is not judged',
     'the value of a :ref reference is <instance>/stages/stage<i>/<producer>[/file] (<instance>/data/<file> for the '
     'direct reference); the directory is checked to exist in the instance; paths are compared after normpath',
+    'for a file-less :output reference to a repeating producer "the referenced file" is the archived stream '
+    'streams/<n>.stdout with the numerically highest n (docstring of ComponentSpecification.path_to_stdout: "most '
+    'recently generated file"); a repeating producer without any stream is not judged',
     'experiments are instantiated with the same recipe as tests/utils.experiment_from_flowir but without the final '
     'validateExperiment() (it would reject the consumers whose arguments the defect under test corrupts)',
 ]
@@ -72,6 +79,9 @@ def case_values(case, inst):
         if method == 'output':
             if stage is None:
                 vals.append(G.default_content(stage, name, file))
+            elif file is None and ('%s/%s' % (stage, name)) in case.get('streams', {}):
+                n = O.referenced_stdout_stream(case['streams']['%s/%s' % (stage, name)])
+                vals.append(G.stream_content(stage, name, n))
             else:
                 vals.append(case['contents'].get(G.content_key(stage, name, file), G.default_content(stage, name, file)))
         else:
@@ -193,7 +203,11 @@ def lenient_equal(expected, observed):
 def build_doc(cases):
     producers = {}
     files = {}
+    streams = {}
     for c in cases:
+        for k, idx in c.get('streams', {}).items():
+            if streams.setdefault(k, list(idx)) != list(idx):
+                raise HarnessError('two cases want different streams for %s' % k)
         for stage, name, file, method, _ in c['refs']:
             if stage is None:
                 continue
@@ -207,12 +221,21 @@ def build_doc(cases):
         files.setdefault(G.content_key(stage, name, None), G.default_content(stage, name, None))
     # stage indexes must be contiguous from 0: a neutral stage-0 component is always present
     comps = [{'name': 'anchor0', 'stage': 0, 'command': {'executable': 'echo', 'arguments': 'anchor'}}]
-    comps += [{'name': n, 'stage': s, 'command': {'executable': 'echo', 'arguments': 'producer'}}
-              for (s, n) in sorted(producers)]
+    for (s, n) in sorted(producers):
+        comp = {'name': n, 'stage': s, 'command': {'executable': 'echo', 'arguments': 'producer'}}
+        if '%s/%s' % (s, n) in streams:
+            comp['workflowAttributes'] = {'repeatInterval': 5}
+        comps.append(comp)
+    for k in streams:
+        if (int(k.split('/')[0]), k.split('/', 1)[1]) not in producers:
+            raise HarnessError('streams given for %s which no case references' % k)
     for i, c in enumerate(cases):
-        comps.append({'name': 'c%05d' % i, 'stage': G.CONSUMER_STAGE, 'references': G.declared_strings(c),
-                      'command': {'executable': 'echo', 'arguments': G.render_arguments(c)}})
-    return {'components': comps}, files
+        comp = {'name': 'c%05d' % i, 'stage': G.CONSUMER_STAGE, 'references': G.declared_strings(c),
+                'command': {'executable': 'echo', 'arguments': G.render_arguments(c)}}
+        if c.get('consumer_repeat'):
+            comp['workflowAttributes'] = {'repeatInterval': 5}
+        comps.append(comp)
+    return {'components': comps}, files, streams
 
 
 @contextlib.contextmanager
@@ -234,7 +257,7 @@ def judge_cases(col, cases, on_fail, ncore, parent_dir):
     """Instantiates one experiment hosting `cases` and judges every consumer. on_fail(case, why, observed, sig).
     The first `ncore` cases belong to the fixed core (separate counters, independent of VERIF_SEED)."""
     from verif.gen.pkg import experiment_from_doc
-    doc, files = build_doc(cases)
+    doc, files, streams = build_doc(cases)
     with sub_scratch(parent_dir) as d:
         try:
             exp = experiment_from_doc(doc, d, extra_files={'data/%s' % G.FILE: G.default_content(None, 'data', G.FILE)},
@@ -249,6 +272,16 @@ def judge_cases(col, cases, on_fail, ncore, parent_dir):
                 raise HarnessError('producer working directory %s does not exist in the instance' % pdir)
             with open(os.path.join(pdir, file), 'w') as f:
                 f.write(text)
+        for k, idx in streams.items():
+            stage, name = k.split('/', 1)
+            sdir = os.path.join(inst, 'stages', 'stage%s' % stage, name, 'streams')
+            os.makedirs(sdir, exist_ok=True)
+            for n in idx:
+                with open(os.path.join(sdir, '%d.stdout' % n), 'w') as f:
+                    f.write(G.stream_content(stage, name, n))
+            # decoys: a newer stream of the other kind, and the (unused) plain out.stdout written above
+            with open(os.path.join(sdir, '%d.stderr' % (max(idx) + 1)), 'w') as f:
+                f.write('DECOY_STDERR')
         if not os.path.isfile(os.path.join(inst, 'data', G.FILE)):
             raise HarnessError('data/%s was not copied to the instance' % G.FILE)
         nodes = exp.experimentGraph.graph.nodes
